@@ -5,23 +5,25 @@ import StreamzVerif.Proofs.MapAsyncFineSim
 
 One transition = one handle of the asyncio event loop (`tick`: the handle at the FRONT of the explicit ready queue) or
 one external action (`arrive x`: an un-awaited `emit`; `jobDone j`: the environment resolves the future user job `j`
-awaits; `downDone`: the consumer completes its awaitable), so the theorems hold for arrivals and completions placed
-ANYWHERE between two handles, any number of outstanding un-awaited emissions, job completions in any order, every
-`parallelism`.  Every theorem quantifies over every action sequence the transition system accepts from the initial
+awaits; `downDone`: the consumer completes its awaitable; `start` / `stop`: `map_async.start()` / `.stop()`), so every
+theorem holds for arrivals, completions and start/stop/restart placed ANYWHERE between two handles, any number of
+outstanding un-awaited emissions, job completions in any order, every `parallelism`.  Every theorem quantifies over every action sequence the transition system accepts from the initial
 state (`run ⟨p, .locked⟩ (init α) acts = some s`).  There is NO scheduling hypothesis: the ready queue, `asyncio.Lock`
 and `asyncio.Queue` are part of the state (what is assumed about asyncio is exactly the equations of the model,
 tied to CPython 3.12 by harness/corr_mapasyncfine.py, which compares the whole ready queue after every handle).
 
 This discharges the assumption of the settled model (Model/AsyncBuffer.lean, "map_async"): *insert jobs waiting for a
 work slot are admitted in arrival order*.  `c02_` order / refinement of the `waiting` list / refutation of the two
-lock-less variants, `c03_` bound `parallelism + 1` and no lost wake-up.
+lock-less variants; a single consumer across every stop/start history (repairs 63350ae, 6edff40) and refutation of the
+two pre-repair worker life cycles; `c03_` bound `parallelism + 1` and no lost wake-up.
 -/
 namespace StreamzVerif.MapAsyncFine
 open StreamzVerif.AsyncBuffer
 
 variable {α β : Type}
 
-/-- C02 (fine), insert order: after ANY action sequence, for any parallelism (0 = unbounded included), the order in
+/-- C02 (fine), insert order: after ANY action sequence (start / stop included), for any parallelism (0 = unbounded
+included), the order in
 which `func` was called / elements entered the work queue (`started`) is the arrival order without gaps
 (`0, 1, .., k-1`; ids are arrival indices: `ins.map fst = range`), and everything that has arrived and not started is
 still waiting, in arrival order: the lock holder, then the lock's waiter queue, then the insert jobs whose first step
@@ -31,56 +33,90 @@ theorem c02_map_async_insert_order (p : Nat) (acts : List (FAct α)) (s : FSt α
     s.started = List.range s.started.length ∧
       s.started ++ waitingIds s = List.range s.ins.length ∧
       s.ins.map Prod.fst = List.range s.ins.length := by
-  have h : Inv (locked p) s := inv_run _ rfl acts _ s (inv_init _) hr
-  have ho : s.started ++ waitingIds s = List.range s.ins.length := by
-    have := h.order
-    simpa [waitingIds, List.append_assoc] using this
-  exact ⟨prefix_range _ _ _ ho, ho, h.idx⟩
+  have h : Inv (locked p) s := inv_run _ rfl rfl acts _ s (inv_init _) hr
+  have ho : s.started ++ waitingIds s = List.range s.ins.length := inv_order' _ s h.l
+  exact ⟨prefix_range _ _ _ ho, ho, h.l.idx⟩
 
-/-- C02 (fine), emission order: the worker awaits the tasks in queue order, so the results handed downstream are a
-prefix of the started jobs — `started = outs ++ (job the worker awaits) ++ work queue` — hence emissions are in
-arrival order without gaps, at every intermediate point. -/
+/-- C02 (fine), emission order, across every stop/start history: tasks are taken off the queue and their results handed
+downstream in the order they were started — `started = outs ++ (job taken out of the queue and not emitted yet) ++ work
+queue` — hence emissions are in arrival order without gaps, at every intermediate point.  Elements that arrive while
+there is no worker (or while the only worker still waits for its predecessor) wait in the work queue or as insert jobs
+(`c02_map_async_insert_order`) and are processed in order once a worker runs. -/
 theorem c02_map_async_emission_order (p : Nat) (acts : List (FAct α)) (s : FSt α)
     (hr : run (locked p) (init α) acts = some s) :
-    s.started = s.outs ++ s.worker.pre ++ s.queue ∧ s.outs <+: s.started ∧ s.outs = List.range s.outs.length := by
-  have h : Inv (locked p) s := inv_run _ rfl acts _ s (inv_init _) hr
+    s.started = s.outs ++ apre s ++ s.queue ∧ s.outs <+: s.started ∧ s.outs = List.range s.outs.length := by
+  have h : Inv (locked p) s := inv_run _ rfl rfl acts _ s (inv_init _) hr
   have hs := (c02_map_async_insert_order p acts s hr).1
-  have hf := h.fifo
-  refine ⟨hf, ⟨s.worker.pre ++ s.queue, by rw [hf]; simp⟩, ?_⟩
+  have hf : s.started = s.outs ++ apre s ++ s.queue := h.fifo
+  refine ⟨hf, ⟨apre s ++ s.queue, by rw [hf]; simp⟩, ?_⟩
   rw [hs] at hf
-  exact prefix_range _ (s.worker.pre ++ s.queue) _ (by rw [hf]; simp)
+  exact prefix_range _ (apre s ++ s.queue) _ (by rw [hf]; simp)
+
+/-- C02 (fine), a single consumer (repairs 63350ae and 6edff40): after ANY action sequence — `start()` reaching the
+running node any number of times, `stop(); start()` with data in flight, `stop()` followed by the `update` that creates
+the next worker, at any handle boundary — the workers ever created form a chain: every worker that is past its
+predecessor wait (active: in `get()`, awaiting a task, or emitting; or finished) has only FINISHED workers before it.
+Hence at most one worker is able to take tasks off the queue or holds one; all later workers are still in their first
+step or in `asyncio.wait([previous])`. -/
+theorem c02_map_async_single_consumer (p : Nat) (acts : List (FAct α)) (s : FSt α)
+    (hr : run (locked p) (init α) acts = some s) :
+    (∀ w v, (stOf s w).isActive = true → (stOf s v).isActive = true → w = v) ∧
+    (∀ w, w < s.workers.length → (stOf s w).isPre = false → ∀ v, v < w → stOf s v = .finished) ∧
+    (∀ w, (stOf s w).isActive = true → ∀ v, w < v → v < s.workers.length → (stOf s v).isPre = true) := by
+  have h : Inv (locked p) s := inv_run _ rfl rfl acts _ s (inv_init _) hr
+  refine ⟨fun w v hw hv => active_unique s h.w w v hw hv, h.w.chain, ?_⟩
+  intro w hw v hwv hv
+  cases hp : (stOf s v).isPre with
+  | true => rfl
+  | false =>
+    have := h.w.chain v hv hp w hwv
+    rw [stOf_def, this] at hw
+    simp [W.isActive] at hw
+
+/-- C02 (fine), nothing lost, nothing twice, across every stop/start history: every element that has arrived is in
+EXACTLY one place — already emitted, taken out of the queue by the one active worker, in the work queue, or waiting
+to be inserted — and these places, in this order, list the arrivals in arrival order (the concatenation is
+`0, 1, .., n-1`, which has no duplicates). -/
+theorem c02_map_async_lossless (p : Nat) (acts : List (FAct α)) (s : FSt α)
+    (hr : run (locked p) (init α) acts = some s) :
+    s.outs ++ apre s ++ s.queue ++ waitingIds s = List.range s.ins.length ∧
+      (s.outs ++ apre s ++ s.queue ++ waitingIds s).Nodup := by
+  have h1 := (c02_map_async_emission_order p acts s hr).1
+  have h2 := (c02_map_async_insert_order p acts s hr).2.1
+  have : s.outs ++ apre s ++ s.queue ++ waitingIds s = List.range s.ins.length := by rw [← h1]; exact h2
+  exact ⟨this, by rw [this]; exact List.nodup_range⟩
 
 /-- C02 (fine), refinement of the settled model's `waiting` list (Model/AsyncBuffer.lean `MSt.waiting`, `arriveM`,
 the admission branch of `settleStep`): along every run the abstraction `waitingIds` (lock holder ++ lock waiters ++
 insert jobs not yet run) behaves exactly like that FIFO list —
-* an arrival appends its id at the END and starts nothing;
+* an arrival (`ins` grows) appends its id at the END and starts nothing;
 * a job is started (`func` called, task put into the work queue) only from the HEAD of the list, and only when the
   work queue is not full — the settled model's admission;
-* every other transition (lock hand-over, polls, the worker taking a task, job and consumer completions, notifications)
-  leaves the list and `started` unchanged; the work queue is unchanged or loses its head to the worker. -/
+* every other transition (lock hand-over, polls, a worker taking a task, job and consumer completions, notifications,
+  `start()`, `stop()`, a worker finishing or waiting for its predecessor) leaves the list and `started` unchanged; the work queue is unchanged or loses its head to the worker. -/
 theorem c02_map_async_waiting_refines (p : Nat) (acts : List (FAct α)) (s s' : FSt α) (a : FAct α)
     (hr : run (locked p) (init α) acts = some s) (hs : step (locked p) s a = some s') :
-    (∃ x, a = .arrive x ∧ waitingIds s' = waitingIds s ++ [s.ins.length] ∧ s'.started = s.started ∧ s'.queue = s.queue) ∨
+    (∃ x, s'.ins = s.ins ++ [(s.ins.length, x)] ∧ waitingIds s' = waitingIds s ++ [s.ins.length] ∧
+      s'.started = s.started ∧ s'.queue = s.queue) ∨
     (waitingIds s' = waitingIds s ∧ s'.started = s.started ∧ (s'.queue = s.queue ∨ ∃ j, s.queue = j :: s'.queue)) ∨
     (∃ j, waitingIds s = j :: waitingIds s' ∧ s'.started = s.started ++ [j] ∧ s'.queue = s.queue ++ [j] ∧
       full p s.queue = false) := by
-  have hr' : run (locked p) (init α) (acts ++ [a]) = some s' := by
-    rw [run_append, hr]; simp [run, hs]
-  have ho := (c02_map_async_insert_order p acts s hr).2.1
-  have ho' := (c02_map_async_insert_order p (acts ++ [a]) s' hr').2.1
-  rcases step_effect (locked p) rfl s s' a hs with ⟨x, ha, h1, h2, h3⟩ | ⟨h1, h2, h3⟩ | ⟨j, h1, h2, h3, h4⟩
-  · left
-    refine ⟨x, ha, ?_, h1, h2⟩
-    rw [h1, h3] at ho'
-    simp [List.range_succ, ← ho] at ho'
-    exact ho'
-  · right; left
-    rw [h1, h2, ← ho] at ho'
-    exact ⟨List.append_cancel_left ho', h1, h3⟩
-  · right; right
-    refine ⟨j, ?_, h1, h3, h4⟩
-    rw [h1, h2, ← ho, List.append_assoc] at ho'
-    exact (List.append_cancel_left ho').symm
+  have hi : Inv (locked p) s := inv_run _ rfl rfl acts _ s (inv_init _) hr
+  obtain ⟨hl', _, heff⟩ := step_facts (locked p) rfl rfl s s' a hi.l hi.w hs
+  have gn : ∀ q o, GN q o s' → (s'.queue = q ∨ ∃ j, q = j :: s'.queue) := by
+    intro q o g
+    rcases g with ⟨g1, _, _⟩ | ⟨j, rest, g1, g2, _⟩
+    · exact Or.inl g1
+    · exact Or.inr ⟨j, by rw [g1, g2]⟩
+  cases heff with
+  | arrive x h1 h2 h3 h4 h5 =>
+    left; exact ⟨x, h1, waiting_arrive _ s s' x hi.l hl' h5 h1, h5, h2⟩
+  | silent h1 h2 h3 h4 h5 => right; left; exact ⟨waiting_same _ s s' hi.l hl' h5 h1, h5, Or.inl h2⟩
+  | admission j h1 h2 h3 h4 h5 h6 =>
+    right; right; exact ⟨j, waiting_admission _ s s' j hi.l hl' h5 h1, h5, h2, h6⟩
+  | get h1 h2 h3 h4 => right; left; exact ⟨waiting_same _ s s' hi.l hl' h2 h1, h2, gn _ _ h4⟩
+  | emit j h1 h2 h3 h4 h5 h6 => right; left; exact ⟨waiting_same _ s s' hi.l hl' h2 h1, h2, Or.inl h4⟩
+  | release j h1 h2 h3 h4 => right; left; exact ⟨waiting_same _ s s' hi.l hl' h2 h1, h2, gn _ _ h4⟩
 
 /-- C02 (fine): the abstraction in closed form — the waiting list is exactly the arrivals that have not started. -/
 theorem c02_map_async_waiting_closed_form (p : Nat) (acts : List (FAct α)) (s : FSt α)
@@ -116,15 +152,16 @@ theorem c02_map_async_settled_runs_are_reach (f : α → β) (c : MCfg) (acts : 
   ⟨reach_mrun f c acts _ Reach.init, fun m m' h => settleStep_is_take_or_admit f c m m' h⟩
 
 /-- C03 (fine), the recorded finding `parallelism + 1`, at EVERY intermediate point: the work queue never holds more
-than `p` tasks, the worker holds at most one more (taken out of the queue — slot freed — before it is awaited), so at
-most `p + 1` started jobs have not been emitted. -/
+than `p` tasks, the one active worker holds at most one more (taken out of the queue — slot freed — before it is awaited),
+so at most `p + 1` started jobs have not been emitted — also across stop/start (a second worker never adds to it). -/
 theorem c03_map_async_bound_fine (p : Nat) (hp : 1 ≤ p) (acts : List (FAct α)) (s : FSt α)
     (hr : run (locked p) (init α) acts = some s) :
-    s.queue.length ≤ p ∧ s.worker.pre.length ≤ 1 ∧ s.started.length ≤ s.outs.length + p + 1 := by
-  have h : Inv (locked p) s := inv_run _ rfl acts _ s (inv_init _) hr
-  have hb : s.queue.length ≤ p := h.bound (by show p ≠ 0; omega)
-  have hw : s.worker.pre.length ≤ 1 := by cases s.worker <;> simp
-  have hl := congrArg List.length h.fifo
+    s.queue.length ≤ p ∧ (apre s).length ≤ 1 ∧ s.started.length ≤ s.outs.length + p + 1 := by
+  have h : Inv (locked p) s := inv_run _ rfl rfl acts _ s (inv_init _) hr
+  have hb : s.queue.length ≤ p := h.l.bound (by show p ≠ 0; omega)
+  have hw : (apre s).length ≤ 1 := by unfold apre; split <;> simp
+  have hf : s.started = s.outs ++ apre s ++ s.queue := h.fifo
+  have hl := congrArg List.length hf
   simp at hl
   exact ⟨hb, hw, by omega⟩
 
@@ -132,22 +169,20 @@ theorem c03_map_async_bound_fine (p : Nat) (hp : 1 ≤ p) (acts : List (FAct α)
 out of the queue and awaits it, job 1 found the slot free: two jobs in flight, nothing emitted. -/
 theorem c03_map_async_bound_fine_tight :
     ∃ s, run (locked 1) (init Nat) [.arrive 10, .arrive 11, .tick, .tick, .tick, .tick, .tick, .tick, .tick] = some s ∧
-      s.started = [0, 1] ∧ s.outs = [] ∧ s.worker = .awaiting 0 ∧ s.queue = [1] := by
+      s.started = [0, 1] ∧ s.outs = [] ∧ stOf s 0 = .awaiting 0 ∧ s.queue = [1] := by
   refine ⟨_, rfl, ?_⟩
   decide
 
 /-- C03 (fine), no lost wake-up on the insert path: (1) a free lock with waiters has resolved the future of the FIRST
 waiter and that waiter's resumption is in the ready queue; nobody else is ever woken; (2) a held lock means the holder's
-poll is in the ready queue (exactly once) — so as long as something waits, some insert handle is runnable; (3) the
-worker's getter is registered only while the work queue is empty (a `put` always wakes it). -/
+poll is in the ready queue (exactly once) — so as long as something waits, some insert handle is runnable. -/
 theorem c03_map_async_no_lost_wakeup (p : Nat) (acts : List (FAct α)) (s : FSt α)
     (hr : run (locked p) (init α) acts = some s) :
     (s.holder = none → s.lockq ≠ [] → ∃ k rest, s.lockq = (k, true) :: rest ∧ wakes s.ready = [k] ∧
         ∀ e ∈ rest, e.2 = false) ∧
-      (∀ j, s.holder = some j → polls s.ready = [j] ∧ wakes s.ready = [] ∧ ∀ e ∈ s.lockq, e.2 = false) ∧
-      (s.worker = .getting true → s.queue = []) := by
-  have h : Inv (locked p) s := inv_run _ rfl acts _ s (inv_init _) hr
-  refine ⟨?_, ?_, h.getter⟩
+      (∀ j, s.holder = some j → polls s.ready = [j] ∧ wakes s.ready = [] ∧ ∀ e ∈ s.lockq, e.2 = false) := by
+  have h : LInv (locked p) s := (inv_run _ rfl rfl acts _ s (inv_init _) hr).l
+  refine ⟨?_, ?_⟩
   · intro hh hne
     obtain ⟨k, rest, hq⟩ := h.freeWoken hh hne
     have hrest : ∀ e ∈ rest, e.2 = false := fun e he => h.tailUnwoken e (by simp [hq, he])
@@ -181,15 +216,15 @@ def raceScheduleEmit : List (FAct Nat) :=
 a free slot inserts without the lock; seeded change C02/r1): element 3 is started while element 2, which arrived
 earlier, still waits, and its result is emitted before element 2's. -/
 theorem c02_map_async_fast_path_breaks_order :
-    (∃ s, run ⟨1, .fastPath⟩ (init Nat) raceSchedule = some s ∧ s.started = [0, 1, 3] ∧ waitingIds s = [2]) ∧
-    (∃ s, run ⟨1, .fastPath⟩ (init Nat) raceScheduleEmit = some s ∧ s.started = [0, 1, 3, 2] ∧ s.outs = [0, 1, 3]) := by
+    (∃ s, run { p := 1, variant := .fastPath } (init Nat) raceSchedule = some s ∧ s.started = [0, 1, 3] ∧ waitingIds s = [2]) ∧
+    (∃ s, run { p := 1, variant := .fastPath } (init Nat) raceScheduleEmit = some s ∧ s.started = [0, 1, 3, 2] ∧ s.outs = [0, 1, 3]) := by
   refine ⟨⟨_, rfl, ?_⟩, ⟨_, rfl, ?_⟩⟩ <;> decide
 
 /-- C02, NEGATION for the code before the repair (every waiting insert job polls `work_queue.full()` concurrently,
 no lock): the same schedule starts element 3 before element 2 (both of them polling or about to). -/
 theorem c02_map_async_polling_breaks_order :
-    (∃ s, run ⟨1, .polling⟩ (init Nat) raceSchedule = some s ∧ s.started = [0, 1, 3] ∧ polls s.ready = [2]) ∧
-    (∃ s, run ⟨1, .polling⟩ (init Nat) raceScheduleEmit = some s ∧ s.started = [0, 1, 3, 2] ∧ s.outs = [0, 1, 3]) := by
+    (∃ s, run { p := 1, variant := .polling } (init Nat) raceSchedule = some s ∧ s.started = [0, 1, 3] ∧ polls s.ready = [2]) ∧
+    (∃ s, run { p := 1, variant := .polling } (init Nat) raceScheduleEmit = some s ∧ s.started = [0, 1, 3, 2] ∧ s.outs = [0, 1, 3]) := by
   refine ⟨⟨_, rfl, ?_⟩, ⟨_, rfl, ?_⟩⟩ <;> decide
 
 /-- C02: on the SAME schedule the code as it is keeps the order: insert job 3 finds `_waiters` empty but the lock held
@@ -202,7 +237,63 @@ theorem c02_map_async_locked_on_race_schedule :
       s.started = [0, 1, 2, 3] ∧ s.outs = [0, 1, 2]) := by
   refine ⟨⟨_, rfl, ?_⟩, ⟨_, rfl, ?_⟩⟩ <;> decide
 
+/-! ### the two pre-repair worker life cycles are refuted on concrete schedules
+
+parallelism 1; elements 0 and 1 arrive un-awaited: the worker has taken job 0 out of the queue and awaits it, job 1 sits
+in the queue.  Then `start()` reaches the running node (`startSchedule`), or the node is restarted, `stop(); start()`
+(`restartSchedule`); element 2 arrives, job 1 completes BEFORE job 0, six handles run. -/
+
+def lifePrefix : List (FAct Nat) :=
+  [.arrive 10, .arrive 11, .tick, .tick, .tick, .tick, .tick, .tick, .tick, .tick, .tick]
+
+def startSchedule : List (FAct Nat) :=
+  lifePrefix ++ [.start, .arrive 12, .jobDone 1, .tick, .tick, .tick, .tick, .tick, .tick]
+
+def restartSchedule : List (FAct Nat) :=
+  lifePrefix ++ [.stop, .start, .arrive 12, .jobDone 1, .tick, .tick, .tick, .tick, .tick, .tick]
+
+/-- C02, NEGATION for `start()` as it was before 63350ae (set the old event, always create a worker): the old worker
+still awaits job 0 while the new one has taken job 1 — two consumers — and the result of element 1 is emitted first. -/
+theorem c02_map_async_start_replaces_breaks_order :
+    ∃ s, run { p := 1, life := .startReplaces } (init Nat) startSchedule = some s ∧
+      stOf s 0 = .awaiting 0 ∧ stOf s 1 = .emitting 1 true ∧ s.outs = [1] := by
+  refine ⟨_, rfl, ?_⟩; decide
+
+/-- C02, NEGATION for a restarted worker that does not wait for its predecessor (the tree between the two repairs; the
+same happens when `stop()` is followed by the `update` that creates the next worker): after `stop(); start()` the
+stopped worker still awaits job 0, the new one takes job 1 and emits it first.  (`start()` on a running node is
+harmless in that tree: `c02_map_async_current_keeps_order_on_life_schedules`, second part, holds for it too.) -/
+theorem c02_map_async_no_predecessor_wait_breaks_order :
+    (∃ s, run { p := 1, life := .noPredecessorWait } (init Nat) restartSchedule = some s ∧
+      stOf s 0 = .awaiting 0 ∧ stOf s 1 = .emitting 1 true ∧ s.outs = [1]) ∧
+    (∃ s, run { p := 1, life := .startReplaces } (init Nat) restartSchedule = some s ∧
+      stOf s 0 = .awaiting 0 ∧ stOf s 1 = .emitting 1 true ∧ s.outs = [1]) := by
+  refine ⟨⟨_, rfl, ?_⟩, ⟨_, rfl, ?_⟩⟩ <;> decide
+
+/-- C02: on the SAME two schedules the code as it is keeps one consumer and the order: `start()` on the running node
+does nothing; after `stop(); start()` the new worker waits for its predecessor (`waitPrev`), job 1 stays in the queue
+although it has completed; continued (job 0 completes, the consumer completes) the emissions are 0, 1 — after the
+restart by the NEW worker, once the stopped one has returned at the top of its loop. -/
+theorem c02_map_async_current_keeps_order_on_life_schedules :
+    (∃ s, run (locked 1) (init Nat) startSchedule = some s ∧ s.workers.length = 1 ∧ stOf s 0 = .awaiting 0 ∧
+      s.queue = [1] ∧ s.outs = []) ∧
+    (∃ s, run (locked 1) (init Nat) restartSchedule = some s ∧ stOf s 0 = .awaiting 0 ∧ stOf s 1 = .waitPrev false ∧
+      s.queue = [1] ∧ s.outs = []) ∧
+    (∃ s, run (locked 1) (init Nat) (startSchedule ++ [.jobDone 0, .tick, .tick, .tick, .tick, .downDone, .tick, .tick,
+        .tick, .tick]) = some s ∧ s.outs = [0, 1]) ∧
+    (∃ s, run (locked 1) (init Nat) (restartSchedule ++ [.jobDone 0, .tick, .tick, .tick, .tick, .downDone, .tick, .tick,
+        .tick, .tick, .tick, .tick, .tick, .tick]) = some s ∧ s.outs = [0, 1] ∧ stOf s 0 = .finished ∧
+        stOf s 1 = .emitting 1 true) := by
+  refine ⟨⟨_, rfl, ?_⟩, ⟨_, rfl, ?_⟩, ⟨_, rfl, ?_⟩, ⟨_, rfl, ?_⟩⟩ <;> decide
+
 /-! ### non-vacuity -/
+
+/-- a reachable state of the chain of `c02_map_async_single_consumer`: a finished worker, an active one (stopped, still
+awaiting its job), one that waits for it and one that has not run yet. -/
+example : ∃ s, run (locked 1) (init Nat) [.arrive 10, .tick, .tick, .tick, .tick, .tick, .jobDone 0, .tick, .tick,
+      .downDone, .tick, .stop, .tick, .arrive 11, .tick, .tick, .tick, .tick, .stop, .start, .tick, .tick, .stop,
+      .start] = some s ∧
+    s.workers.map (fun k => k.st) = [.finished, .awaiting 1, .waitPrev false, .starting] := ⟨_, rfl, by decide⟩
 
 /-- a reachable state with the holder polling, two waiters on the lock and a fresh insert job: the waiting list is
 `holder ++ lock waiters ++ fresh`. -/
